@@ -70,7 +70,7 @@ def layouts(max_samples, max_plates, max_size, max_total):
     return out
 
 
-def build_rows(layout, n_obs, pool="mixed", all_observed=False):
+def build_rows(layout, n_obs, pool="mixed", all_observed=False, mix=None):
     """layout: list (per sample) of unobserved plate sizes; n_obs rows go to an
     observed plate 'obs' (cycling over the samples)."""
     P = POOL_COMBO_ONLY if pool == "combo" else (POOL[6:] + POOL[:6] if pool == "mixed5" else (POOL_TRIPLE if pool == "triple" else POOL))
@@ -91,6 +91,11 @@ def build_rows(layout, n_obs, pool="mixed", all_observed=False):
         tr = P[(k + 1) % len(P)]
         rows.append((f"s{s}", "obs", tr, round(0.05 + 0.1 * g, 4), True))
         g += 1
+    if mix:
+        # one more unobserved plate whose wells belong to several samples, in the given order (e.g. s0, s1, s0)
+        for k, s in enumerate(mix):
+            rows.append((f"s{s}", "pmix", P[(k + 3) % len(P)], round(0.05 + 0.1 * g, 4), all_observed))
+            g += 1
     return rows
 
 
@@ -215,6 +220,15 @@ def plan(tier, prop):
                              ("merge_top_bottom", {"n_iterations": 1}), ("n_per_sample", {"min_n_cell_line_plates": 2}), ("optimal", {})):
             items.append({"op": kind, "params": params, "layout": lay, "n_obs": 0, "pool": "mixed", "bound": 0 if tier == "quick" else 1})
     if prop == "C13":
+        # merge smoothers on screens that contain a multi-sample unobserved plate (every arrangement of 2-3 wells over two samples)
+        for lay in ([[1, 1], [1]], [[2, 1], [1, 1]], [[1, 1, 1]]):
+            for mix in ([0, 1], [1, 0], [0, 1, 0], [1, 0, 1], [0, 0, 1], [0, 1, 1]):
+                if max(mix) >= len(lay):
+                    continue
+                for kind, params in (("merge_min", {"min_size": 2}), ("merge_min", {"min_size": 4}), ("merge_top_bottom", {"n_iterations": 1}),
+                                     ("merge_top_bottom", {"n_iterations": 2})):
+                    items.append({"op": kind, "params": params, "layout": lay, "n_obs": 0, "pool": "mixed", "mix": mix})
+    if prop == "C13":
         items = [it for it in items if not it["op"].startswith("holdout") and it["op"] not in ("permutation", "ensemble")]
         for lay in lay_gen:
             for flag in (False, True):
@@ -231,7 +245,7 @@ def execute(item, chooser):
     """Run one operation on one input with one answer sequence.
     Returns (input_screen, outputs or None, exception or None)."""
     kind = item["op"]
-    rows = build_rows(item["layout"], item["n_obs"], item["pool"], all_observed=(kind == "sparse_cover"))
+    rows = build_rows(item["layout"], item["n_obs"], item["pool"], all_observed=(kind == "sparse_cover"), mix=item.get("mix"))
     screen = make_screen(rows, control=CTL)
     before = rows_of(screen)
     rng = ScriptedGenerator(chooser)
@@ -468,13 +482,18 @@ def oracle_c13(item, before, out):
             dest = {where.get(r[3]) for r in rs}
             if len(dest) != 1:
                 bad.append((f"C13|{kind}|split", f"input plate {name!r} was split or lost: {sorted(map(str, dest))}"))
+        origin = {r[3]: name for name, rs in in_pl.items() for r in rs}
         per_sample_out = {}
         for name, rs in plates.items():
             ss = {r[0] for r in rs}
-            if len(ss) != 1:
-                bad.append((f"C13|{kind}|cross-sample", f"plate {name!r} mixes samples {sorted(ss)}"))
+            merged_from = {origin.get(r[3]) for r in rs}
+            if len(ss) != 1 and len(merged_from) > 1:
+                # (an input plate that already held several samples and was left alone is not a merge)
+                bad.append((f"C13|{kind}|cross-sample", f"plate {name!r} is the union of input plates {sorted(map(str, merged_from))} and mixes samples {sorted(ss)}"))
             for s in ss:
                 per_sample_out.setdefault(s, []).append(len(rs))
+        if item.get("mix"):
+            return bad  # input with a multi-sample plate: only the "same sample" clause is judged
         per_sample_in = {}
         for name, rs in in_pl.items():
             per_sample_in.setdefault(rs[0][0], []).append(len(rs))
@@ -528,7 +547,7 @@ def run_item(prop, item, col):
             continue
         case = {"item": item, "choices": ch.choices}
         if col.evaluations <= 1:
-            col.sample({"op": item["op"], "params": item["params"], "input_rows": build_rows(item["layout"], item["n_obs"], item["pool"]),
+            col.sample({"op": item["op"], "params": item["params"], "input_rows": build_rows(item["layout"], item["n_obs"], item["pool"], mix=item.get("mix")),
                         "choices": ch.choices})
         res = oracle(item, before, out)
         outs = out if isinstance(out, tuple) else (out,)
@@ -553,7 +572,7 @@ def replay(prop, case, col):
         print(f"replay: operation refused: {short_exc(exc)}")
         return
     print("input rows:")
-    for r in build_rows(item["layout"], item["n_obs"], item["pool"]):
+    for r in build_rows(item["layout"], item["n_obs"], item["pool"], mix=item.get("mix")):
         print("   ", r)
     for o in out if isinstance(out, tuple) else (out,):
         print("output rows:")
